@@ -649,6 +649,7 @@ func (c *Ctx) runC15spzValidate() {
 			ans = "err"
 		}
 		c.Emit("c15.spz.validate", fmt.Sprintf("%d %d %d %d", h.magic, h.ver, h.np, h.deg), ans)
+		c.Emit("c15.holds.spz_validate", fmt.Sprintf("%d %d %d %d %s", h.magic, h.ver, h.np, h.deg, ans), "true")
 	}
 	// header-only streams through spz.Read: a header within the limit fails with a SHORT READ, one beyond it is INVALID
 	for _, np := range []uint32{1, 9999999, 10000000, 10000001} {
@@ -667,6 +668,7 @@ func (c *Ctx) runC15spzValidate() {
 			})
 			c.Note(fmt.Sprintf("c15.spz.header-only.%d", np))
 			c.Emit("c15.spz.errkind", c15hex(stream), ans)
+			c.Emit("c15.holds.spz_errkind", c15hex(stream)+" "+ans, "true")
 		}
 	}
 }
